@@ -160,7 +160,9 @@ class readexactly:
 
     args = dict(self=_reader_obj, size=ty.Int)
     requires = lambda size: size >= 0
-    may_raise = {ConnectionResetError: None}
+    # the peer-is-gone error is raised only while fewer than `size` bytes have been delivered
+    may_raise = {ConnectionResetError: lambda self, size, old: wrap_bool(
+        tm.Lt(tm.Sub(self.sock.ghost.pos, old.self.sock.ghost.start), I(size)))}
     ensures = _readexactly_post
     result = ty.Bytes
     modifies = ["self._buffer", "self.sock"]
@@ -179,3 +181,836 @@ class readexactly:
 
 def _post_advance_start(self, size, result, old):
     return True
+
+
+def _msg_at(total: tm.T, start: tm.T):
+    """(id, size, body, end offset) of the message whose header begins at `start` in `total`."""
+    cid = sym.be_decode(tm.Substr(total, start, tm.mk_int(8)), 8)
+    size = sym.be_decode(tm.Substr(total, tm.Add(start, tm.mk_int(8)), tm.mk_int(8)), 8)
+    body = tm.Substr(total, tm.Add(start, tm.mk_int(16)), size)
+    return cid, size, body, tm.Add(start, tm.Add(tm.mk_int(16), size))
+
+
+def _recv_post(reader, result, old):
+    """The message returned is the one found at the consumption offset; the offset moves past it."""
+    g0 = old.reader.sock.ghost
+    cid, size, body, end = _msg_at(g0.total, g0.start)
+    r_id, r_body = result
+    isn = r_body.isnone if isinstance(r_body, sym.SymOpt) else tm.mk_bool(r_body is None)
+    pay = r_body.payload if isinstance(r_body, sym.SymOpt) else r_body
+    body_ok = tm.Iff(isn, tm.Eq(size, tm.mk_int(0)))
+    if pay is not None:
+        body_ok = tm.And(body_ok, tm.Implies(tm.Not(isn), tm.Eq(S(pay), body)))
+    return (r_id == wrap_int(cid)) & wrap_bool(body_ok) & _buffer_inv(reader, end)
+
+
+@contract("stepup/core/rpc.py::_recv_socket_message", props=["C16"])
+class recv_socket_message:
+    args = dict(reader=lambda a: _reader_obj(a))
+    may_raise = {ConnectionResetError: None, RPCError: None}
+    ensures = _recv_post
+    result = ty.TupleOf(ty.Int, ty.Opt(ty.Bytes))
+    modifies = ["reader._buffer", "reader.sock"]
+
+
+# the readexactly contract updates the ghost consumption offset when used as a callee
+def _readexactly_stub_post(self, size, result, old):
+    r = _readexactly_post(self, size, result, old)
+    self.sock.ghost.start = tm.Add(old.self.sock.ghost.start, I(size))
+    return r
+
+
+readexactly.ensures = _readexactly_stub_post
+
+
+@lemma("C16/lemma/message_sequence", props=["C16"],
+       note="if the stream continues at `start` with enc(id, body) ++ rest, the message found there is (id, body) and "
+            "the next message is looked for exactly at the beginning of rest (induction step over the k-th message)")
+def message_sequence():
+    c = cur()
+    total, pre, rest, body = (c.fresh(n, STR) for n in ("total", "pre", "rest", "body"))
+    cid = c.fresh("cid", INT)
+    isn = c.fresh("isnone", BOOL)
+    c.assume(wrap_bool(tm.And(tm.Ge(cid, tm.mk_int(0)), tm.Lt(cid, tm.mk_int(TWO64)),
+                              tm.Le(tm.Len(body), tm.mk_int(MAX_BODY)))))
+    msg = enc_t(cid, isn, body)
+    c.assume(wrap_bool(tm.Eq(total, tm.Concat(pre, msg, rest))))
+    start = tm.Len(pre)
+    got_id, got_size, got_body, end = _msg_at(total, start)
+    b = tm.Ite(isn, tm.mk_str(""), body)
+    # explicit slicing facts (substr of a concatenation at the component boundaries)
+    return wrap_bool(tm.And(tm.Eq(got_id, cid), tm.Eq(got_size, tm.Len(b)), tm.Eq(got_body, b),
+                            tm.Eq(end, tm.Add(tm.Len(pre), tm.Len(msg))),
+                            tm.Eq(tm.Substr(total, end, tm.Len(rest)), rest)))
+
+
+class StreamReaderStub:
+    """asyncio.StreamReader over the same ghost stream (assumed contract of readexactly)."""
+
+    def __init__(self, name):
+        self.ghost = GhostStream(name)
+
+    def readexactly(self, n):
+        c = cur()
+        g = self.ghost
+        for exc in (rpc.asyncio.IncompleteReadError, ConnectionError):
+            f = c.fresh(c.fresh_name("readexactly." + exc.__name__), BOOL)
+            if c.fork(f):
+                if exc is rpc.asyncio.IncompleteReadError:
+                    raise exc(b"", None)
+                raise exc("peer gone [contract of StreamReader.readexactly]")
+        c.pc.append(tm.Le(tm.Add(g.start, I(n)), tm.Len(g.total)))
+        r = wrap_bytes(tm.Substr(g.total, g.start, I(n)))
+        g.start = tm.Add(g.start, I(n))
+        c.pc.append(tm.Eq(tm.Len(S(r)), I(n)))
+        return r
+
+
+def _recv_stream_post(reader, result, old):
+    r = sym.resolve(result) if isinstance(result, sym.SymOpt) else result
+    if r is None:
+        return True
+    g0 = old_ghost(old)
+    cid, size, body, end = _msg_at(g0.total, g0.start)
+    r_id, r_body = r
+    isn = r_body.isnone if isinstance(r_body, sym.SymOpt) else tm.mk_bool(r_body is None)
+    pay = r_body.payload if isinstance(r_body, sym.SymOpt) else r_body
+    ok = tm.And(tm.Eq(I(r_id), cid), tm.Iff(isn, tm.Eq(size, tm.mk_int(0))), tm.Eq(reader.ghost.start, end))
+    if pay is not None:
+        ok = tm.And(ok, tm.Implies(tm.Not(isn), tm.Eq(S(pay), body)))
+    return wrap_bool(ok)
+
+
+def old_ghost(old):
+    return old.reader.ghost
+
+
+class _StreamSnap:
+    pass
+
+
+def _stream_reader(args):
+    return StreamReaderStub("reader")
+
+
+StreamReaderStub.__snapshot__ = lambda self: type("Snap", (), dict(ghost=self.ghost.__snapshot__()))()
+
+
+@contract("stepup/core/rpc.py::_recv_stream_message", props=["C16"])
+class recv_stream_message:
+    args = dict(reader=_stream_reader)
+    may_raise = {RPCError: None}
+    ensures = _recv_stream_post
+    modifies = []
+
+
+# ---------------------------------------------------------------- pairing: client side
+
+
+@contract("stepup/core/rpc.py::_SocketClientState._next_call_id", props=["C16"])
+class next_call_id:
+    args = dict(self=lambda a: ty.ObjOf(rpc._SocketClientState, dict(_counter=ty.Int)).fresh("self"))
+    ensures = lambda self, old, result: (result == old.self._counter + 1) & (self._counter == result)
+    result = ty.Int
+    modifies = ["self._counter"]
+
+
+def _sync_client(args):
+    c = ty.ObjOf(rpc.SocketSyncRPCClient, dict(
+        _reader=ty.Make(lambda n: _reader_obj({})), _counter=ty.Int, _broken=ty.Bool, socket_path=ty.Str,
+        server_log_description=ty.Opt(ty.Str)), name="SocketSyncRPCClient").fresh("self")
+    return c
+
+
+def _recv_response_post(self, expected_call_id, result, trace):
+    calls = [e for e in trace if e.kind == "call" and e.callee == "_recv_socket_message"]
+    if len(calls) != 1:
+        return False
+    got_id, got_body = calls[0].result
+    return (got_id == expected_call_id) & sym.sym_eq_val(result, got_body)
+
+
+@contract("stepup/core/rpc.py::SocketSyncRPCClient._recv_response", props=["C16"])
+class recv_response:
+    """Returns the body of the received message only if that message carries the expected call id."""
+
+    args = dict(self=_sync_client, expected_call_id=ty.Int)
+    may_raise = {RPCError: None, ConnectionResetError: None}
+    ensures_named = dict(
+        from_the_received_message=_recv_response_post,
+        # in terms of the ghost stream: the message at the consumption offset carries the expected id and
+        # the returned body is its body
+        paired=lambda self, expected_call_id, result, old: _paired(self, expected_call_id, result, old))
+    result = ty.Opt(ty.Bytes)
+    modifies = ["self._reader"]
+
+    @staticmethod
+    def finish(c, outcome, args, old):
+        # RPCError for a mismatch is raised exactly when the ids differ
+        calls = [e for e in c.trace if e.kind == "call" and e.callee == "_recv_socket_message"]
+        if outcome[0] == "raise" and isinstance(outcome[1], RPCError) and calls:
+            c.prove("mismatch_raises_only_if_ids_differ", calls[0].result[0] != args["expected_call_id"], kind="raises")
+
+
+def _paired(self, expected_call_id, result, old):
+    g0 = old.self._reader.sock.ghost
+    cid, size, body, end = _msg_at(g0.total, g0.start)
+    isn = result.isnone if isinstance(result, sym.SymOpt) else tm.mk_bool(result is None)
+    pay = result.payload if isinstance(result, sym.SymOpt) else result
+    ok = tm.And(tm.Eq(cid, I(expected_call_id)), tm.Iff(isn, tm.Eq(size, tm.mk_int(0))))
+    if pay is not None:
+        ok = tm.And(ok, tm.Implies(tm.Not(isn), tm.Eq(S(pay), body)))
+    return wrap_bool(ok)
+
+
+def _enc_body_stub(payload):
+    c = cur()
+    r = SymBytes(c.fresh(c.fresh_name("pickled"), STR))
+    c.event("encode_body", payload=payload, result=r)
+    return r
+
+
+def _send_socket_stub(sock, call_id, body):
+    cur().event("send", transport="socket", call_id=call_id, body=body)
+
+
+def _sync_call_finish(c, outcome, args, old):
+    """One request is sent, under a fresh call id, and the response is awaited under the same id."""
+    sends = [e for e in c.trace if e.kind == "send"]
+    recvs = [e for e in c.trace if e.kind == "call" and e.callee == "SocketSyncRPCClient._recv_response"]
+    ids = [e for e in c.trace if e.kind == "call" and e.callee == "_SocketClientState._next_call_id"]
+    if outcome[0] == "return":
+        c.prove("one_send_one_recv", len(sends) == 1 and len(recvs) == 1 and len(ids) == 1, kind="post")
+    if sends and ids:
+        c.prove("send_uses_fresh_id", sends[0].call_id == ids[0].result, kind="post")
+    if recvs and ids:
+        c.prove("recv_expects_same_id", recvs[0].args["expected_call_id"] == ids[0].result, kind="post")
+        c.prove("send_precedes_recv", bool(sends) and sends[0].index < recvs[0].index, kind="post")
+
+
+def _decode_response_stub(body, call, *, server_log_description=None):
+    c = cur()
+    c.event("decode_response", body=body, call=call)
+    return ty.Opaque("Any").fresh(c.fresh_name("result"))
+
+
+@contract("stepup/core/rpc.py::SocketSyncRPCClient.__call__", props=["C16"])
+class sync_call:
+    args = dict(self=_sync_client, name=ty.Str, args=lambda a: (), kwargs=lambda a: {}, _rpc_timeout=ty.Opt(ty.Opaque("Float")))
+    env = dict(_encode_body=_enc_body_stub, _send_socket_message=_send_socket_stub,
+               _resolve_socket_timeout=lambda t: None, _decode_response=_decode_response_stub)
+    may_raise = {RPCError: None, ConnectionResetError: None, OSError: None}
+    finish = _sync_call_finish
+    modifies = ["self._counter", "self._broken", "self._reader"]
+
+
+@contract("stepup/core/rpc.py::SocketSyncRPCClient._ensure_connected", props=[], verify=False,
+          note="returns the connected socket (connection management is outside C16's contracts)")
+class ensure_connected_assumed:
+    may_raise = {OSError: None}
+    result = lambda: ty.Opaque("Socket")
+    modifies = []
+
+
+# ---------------------------------------------------------------- pairing: asynchronous client
+
+
+class FutureStub:
+    """asyncio.Future / Task with identity `id`; resolving it is an effect."""
+
+    def __init__(self, idt):
+        self.id = idt
+
+    def cancelled(self):
+        c = cur()
+        return sym.SymBool(c.fresh(c.fresh_name("future.cancelled"), BOOL))
+
+    def set_result(self, v):
+        cur().event("future.set_result", future=self, value=v)
+
+    def set_exception(self, e):
+        cur().event("future.set_exception", future=self, exc=e)
+
+    def cancel(self):
+        cur().event("task.cancel", task=self)
+
+    def add_done_callback(self, cb):
+        cur().event("task.add_done_callback", task=self, callback=cb)
+
+    def done(self):
+        c = cur()
+        return sym.SymBool(c.fresh(c.fresh_name("task.done"), BOOL))
+
+    def result(self):
+        return None
+
+    def __eq__(self, o):
+        return isinstance(o, FutureStub) and wrap_bool(tm.Eq(self.id, o.id))
+
+    __hash__ = None
+
+
+FutureH = ty.Handle(FutureStub)
+PendingRec = ty.Rec(rpc._PendingCall, dict(call=ty.Ignored(), future=FutureH), eq=["future"], frozen=False)
+engine.CLASS_SPECS[rpc._PendingCall] = PendingRec
+PendingMap = ty.MapOf(ty.Int, PendingRec)
+
+
+class _LoopStub:
+    def create_future(self):
+        c = cur()
+        f = FutureStub(c.fresh(c.fresh_name("new_future"), INT))
+        c.event("create_future", future=f)
+        return f
+
+
+class _AsyncioStub:
+    def get_running_loop(self):
+        return _LoopStub()
+
+    def create_task(self, coro, name=None):
+        c = cur()
+        t = FutureStub(c.fresh(c.fresh_name("new_task"), INT))
+        c.event("create_task", task=t, coro=coro, name=name)
+        return t
+
+    def gather(self, *a, **k):
+        cur().event("gather", tasks=a)
+        return None
+
+    def __getattr__(self, name):
+        return getattr(rpc.asyncio, name)
+
+
+def _send_stream_stub(writer, call_id, body):
+    c = cur()
+    c.event("send", transport="stream", call_id=call_id, body=body)
+    for exc in (ConnectionError,):
+        if c.fork(c.fresh(c.fresh_name("send.fails"), BOOL)):
+            raise exc("send failed [contract of StreamWriter]")
+    if c.fork(c.fresh(c.fresh_name("send.cancelled"), BOOL)):
+        raise rpc.asyncio.CancelledError("[contract of await]")
+
+
+def _async_client(args):
+    return ty.ObjOf(rpc.SocketAsyncRPCClient, dict(
+        _pending=PendingMap, _counter=ty.Int, _recv_task=ty.Make(lambda n: FutureStub(cur().fresh(n, INT))),
+        _writer=ty.Opaque("Writer"), _reader=ty.Opaque("Reader"), server_log_description=ty.Opt(ty.Str),
+        socket_path=ty.Str, _stop_event=ty.Opaque("Event")), name="SocketAsyncRPCClient").fresh("self")
+
+
+@contract("stepup/core/rpc.py::SocketAsyncRPCClient._ensure_connected", props=[], verify=False,
+          note="opens the connection and starts the receive loop (outside C16's contracts)")
+class async_ensure_connected_assumed:
+    may_raise = {OSError: None}
+    modifies = []
+
+
+def _async_call_finish(c, outcome, args, old):
+    """The future is registered under the call id before the request is sent; when sending fails the entry is
+    removed again, so no caller is left waiting; the same id is used for both."""
+    sends = [e for e in c.trace if e.kind == "send"]
+    ids = [e for e in c.trace if e.kind == "call" and e.callee == "_SocketClientState._next_call_id"]
+    futs = [e for e in c.trace if e.kind == "create_future"]
+    me = args["self"]
+    if sends:
+        c.prove("one_fresh_id", len(ids) == 1 and len(futs) == 1, kind="post")
+        if ids and futs:
+            cid = ids[0].result
+            c.prove("send_uses_fresh_id", sends[0].call_id == cid, kind="post")
+    if outcome[0] == "raise" and sends and ids:
+        # after a failed send, the entry is gone
+        c.prove("failed_send_unregisters", ~me._pending.__contains__(ids[0].result), kind="post")
+
+
+def _async_send_guard(e, self, trace):
+    """At the moment of sending, the pending table maps the call id to the future the caller will await."""
+    futs = [ev for ev in trace if ev.kind == "create_future"]
+    if not futs:
+        return False
+    m = self._pending
+    present = m.contains_t(e.call_id)
+    stored = m.value_at(e.call_id)
+    return wrap_bool(tm.And(present, tm.Eq(stored.future.id, futs[-1].future.id)))
+
+
+@contract("stepup/core/rpc.py::SocketAsyncRPCClient.__call__", props=["C16"])
+class async_call:
+    args = dict(self=_async_client, name=ty.Str, args=lambda a: (), kwargs=lambda a: {})
+    env = dict(_encode_body=_enc_body_stub, _send_stream_message=_send_stream_stub, asyncio=_AsyncioStub(),
+               _decode_response=_decode_response_stub)
+    events = {"send": _async_send_guard}
+    may_raise = {ConnectionResetError: None, ConnectionError: None, OSError: None, rpc.asyncio.CancelledError: None,
+                 RPCError: None}
+    finish = _async_call_finish
+    modifies = ["self._counter", "self._pending"]
+
+
+class _Aclosing:
+    def __init__(self, x):
+        self.x = x
+
+    def __aenter__(self):
+        return self.x
+
+    def __aexit__(self, *a):
+        return False
+
+
+class _ContextlibStub:
+    aclosing = _Aclosing
+
+    def __getattr__(self, name):
+        import contextlib
+
+        return getattr(contextlib, name)
+
+
+Messages = ty.SeqOf(ty.TupleOf(ty.Int, ty.Opt(ty.Bytes)))
+
+
+def _client_set_result_guard(e, trace, old):
+    """A response resolves exactly the future registered under the call id it carries."""
+    lp = cur().data.get("loops", {}).get(0)
+    if lp is None:
+        return False
+    call_id, response = lp.current
+    m = lp.pre.self._pending if hasattr(lp.pre, "self") else None
+    m = cur().data["loop0.pending.before"]
+    was = m.contains_t(call_id)
+    stored = m.value_at(call_id)
+    return wrap_bool(tm.And(was, tm.Eq(e.future.id, stored.future.id))) & sym.sym_eq_val(e.value, response)
+
+
+def _client_recv_loop_setup(args):
+    pass
+
+
+@contract("stepup/core/rpc.py::SocketAsyncRPCClient._recv_loop", props=["C16"])
+class client_recv_loop:
+    args = dict(self=_async_client)
+    env = dict(_iter_stream_messages=lambda r, s: Messages.fresh(cur().fresh_name("responses")),
+               contextlib=_ContextlibStub())
+    may_raise = {RPCError: None}
+    events = {"future.set_result": lambda e, trace, old: _client_set_result_guard2(e),
+              "future.set_exception": lambda e: _client_set_exception_guard(e)}
+    # whatever ends the loop, no caller is left waiting: the table of pending calls is empty afterwards
+    ensures = lambda self: wrap_bool(tm.Eq(I(_len(self._pending)), tm.mk_int(0)))
+    modifies = ["self._pending"]
+    loops = {0: LoopSpec(havoc=("self",), modifies={"self": ["_pending"]}),
+             1: LoopSpec(havoc=("self",), modifies={"self": ["_pending"]})}
+
+    @staticmethod
+    def finish(c, outcome, args, old):
+        if outcome[0] == "raise":
+            c.prove("pending_empty_after_failure", tm.Eq(I(_len(args["self"]._pending)), tm.mk_int(0)), kind="post")
+
+
+def _len(m):
+    from vc import vcrt
+
+    return vcrt.v_len(m)
+
+
+def _client_set_result_guard2(e):
+    """The future resolved in an iteration is the one that was registered under the received call id when the
+    iteration began, and it receives the body of that response."""
+    c = cur()
+    lp = c.data.get("loops", {}).get(0)
+    if lp is None or lp.i is None:
+        return False
+    call_id, response = lp.current
+    pops = [ev for ev in c.trace if ev.kind == "map.pop" and ev.index >= lp.head_index]
+    if not pops:
+        return False
+    p = pops[-1]
+    return wrap_bool(tm.And(tm.Eq(I(p.key), I(call_id)), p.present, tm.Eq(e.future.id, p.value.future.id))) \
+        & sym.sym_eq_val(e.value, response)
+
+
+def _client_set_exception_guard(e):
+    """Only futures that were still pending are failed."""
+    c = cur()
+    pops = [ev for ev in c.trace if ev.kind == "map.popitem"]
+    if not pops:
+        return False
+    return wrap_bool(tm.Eq(e.future.id, pops[-1].value.future.id))
+
+
+# ---------------------------------------------------------------- pairing: server side
+
+
+class _QueueStub:
+    def put_nowait(self, item):
+        cur().event("completed.put", item=item)
+
+    def get(self):
+        return None
+
+
+class _SetStub:
+    """`self._tasks`: only membership changes matter here."""
+
+    def add(self, t):
+        cur().event("tasks.add", task=t)
+
+    def discard(self, t):
+        cur().event("tasks.discard", task=t)
+
+    def __iter__(self):
+        return iter(())
+
+
+def _server_conn(args):
+    return ty.ObjOf(rpc.RPCServerConnection, dict(
+        handler=ty.Opaque("Handler"), reader=ty.Opaque("Reader"), writer=ty.Opaque("Writer"),
+        _stop_event=ty.Make(lambda n: _EventStub()), _completed=ty.Make(lambda n: _QueueStub()),
+        _tasks=ty.SetOf(FutureH)), name="RPCServerConnection").fresh("self")
+
+
+class _EventStub:
+    def set(self):
+        cur().event("stop_event.set")
+
+    def is_set(self):
+        c = cur()
+        return sym.SymBool(c.fresh(c.fresh_name("stop.is_set"), BOOL))
+
+
+@contract("stepup/core/rpc.py::RPCServerConnection._queue_reply", props=["C16"])
+class queue_reply:
+    args = dict(self=_server_conn, call_id=ty.Int, task=FutureH)
+    events = {"completed.put": lambda e, call_id, task: (e.item[0] == call_id) & wrap_bool(tm.Eq(e.item[1].id, task.id))}
+    modifies = ["self._tasks"]
+
+    @staticmethod
+    def finish(c, outcome, args, old):
+        puts = [e for e in c.trace if e.kind == "completed.put"]
+        c.prove("queued_exactly_once", len(puts) == 1, kind="post")
+
+
+class _Partial:
+    def __init__(self, func, *args):
+        self.func, self.args = func, args
+
+
+def _decode_request_stub(body):
+    c = cur()
+    if c.fork(c.fresh(c.fresh_name("decode_request.fails"), BOOL)):
+        raise RPCError("[contract of _decode_request]")
+    call = sym.SymObj(rpc.RPCCall, dict(name=ty.Str.fresh(c.fresh_name("call.name")), args=(), kwargs={}),
+                      name="RPCCall", frozen=True)
+    c.event("decode_request", body=body, call=call)
+    return call
+
+
+def _capture_stub(handler, call):
+    return ("coro", handler, call)
+
+
+def _server_recv_finish(c, outcome, args, old):
+    """In the iteration that receives (id, request): one task is created for the call decoded from that
+    request, and its completion callback is bound to the same id."""
+    # C15: calls in flight are cancelled only when the loop ends with an exception, and every path, normal or
+    # not, waits for the calls in flight (gather) before leaving
+    cancels = [e for e in c.trace if e.kind == "task.cancel"]
+    if outcome[0] == "return":
+        c.prove("no_cancel_on_normal_end", len(cancels) == 0, kind="post")
+    if outcome[0] in ("return", "raise"):
+        c.prove("waits_for_calls_in_flight", any(e.kind == "gather" for e in c.trace), kind="post")
+    tasks = [e for e in c.trace if e.kind == "create_task"]
+    cbs = [e for e in c.trace if e.kind == "task.add_done_callback"]
+    decs = [e for e in c.trace if e.kind == "decode_request"]
+    lp = c.data.get("loops", {}).get(0)
+    if not tasks:
+        return
+    c.prove("one_task_per_request", len(tasks) == 1 and len(cbs) == 1 and len(decs) == 1 and lp is not None,
+            kind="post")
+    if len(tasks) == 1 and len(cbs) == 1 and len(decs) == 1 and lp is not None:
+        call_id, request = lp.current
+        cb = cbs[0].callback
+        ok_cb = isinstance(cb, _Partial) and getattr(cb.func, "__name__", "") == "_queue_reply" and len(cb.args) == 1
+        c.prove("callback_is_queue_reply", ok_cb, kind="post")
+        if ok_cb:
+            c.prove("callback_bound_to_received_id", cb.args[0] == call_id, kind="post")
+        c.prove("callback_on_created_task", tm.Eq(cbs[0].task.id, tasks[0].task.id), kind="post")
+        coro = tasks[0].coro
+        c.prove("task_runs_decoded_call", isinstance(coro, tuple) and coro[2] is decs[0].call
+                and coro[1] is args["self"].handler, kind="post")
+        c.prove("decoded_from_same_message", sym.sym_eq_val(decs[0].body, request), kind="post")
+
+
+@contract("stepup/core/rpc.py::RPCServerConnection._recv_loop", props=["C16", "C15"])
+class server_recv_loop:
+    args = dict(self=_server_conn)
+    env = dict(_iter_stream_messages=lambda r, s: Messages.fresh(cur().fresh_name("requests")),
+               contextlib=_ContextlibStub(), asyncio=_AsyncioStub(), _decode_request=_decode_request_stub,
+               _call_and_capture_failure=_capture_stub, partial=_Partial)
+    may_raise = {RPCError: None}
+    finish = _server_recv_finish
+    # C15: calls in flight are cancelled only while an exception is being handled (the guard runs inside the
+    # real code's handler, where sys.exc_info() shows the exception in flight)
+    events = {"task.cancel": lambda e: __import__("sys").exc_info()[1] is not None}
+    modifies = ["self._tasks"]
+    loops = {0: LoopSpec(havoc=("self",), modifies={"self": ["_tasks"]}), 1: LoopSpec()}
+
+
+def _server_send_finish(c, outcome, args, old):
+    """Per completed (id, task): nothing is sent for a cancelled task; otherwise exactly one message with that id
+    is sent (the result, or the sentinel None when the result cannot be encoded), unless the peer is gone."""
+    lp = c.data.get("loops", {}).get(0)
+    if lp is None or lp.i is None:
+        return
+    call_id, task = lp.current
+    sends = [e for e in c.trace if e.kind == "send" and e.index >= lp.head_index]
+    for k, e in enumerate(sends):
+        c.prove(f"send{k}.uses_completed_id", e.call_id == call_id, kind="post")
+    bodies = [e for e in sends if e.body is not None]
+    c.prove("at_most_one_result_message", len(bodies) <= 1, kind="post")
+    c.prove("at_most_two_sends", len(sends) <= 2, kind="post")
+    if len(sends) == 2:
+        # the second one is the sentinel after a failed attempt
+        c.prove("second_send_is_sentinel", sends[1].body is None, kind="post")
+
+
+def _await_task(t):
+    return ty.Opaque("Any").fresh(cur().fresh_name("task.result"))
+
+
+def _enc_body_may_fail(payload):
+    c = cur()
+    if c.fork(c.fresh(c.fresh_name("pickle.fails"), BOOL)):
+        raise TypeError("cannot pickle [contract of pickle.dumps]")
+    return _enc_body_stub(payload)
+
+
+def _send_stream_stub_server(writer, call_id, body):
+    c = cur()
+    c.event("send", transport="stream", call_id=call_id, body=body)
+    if c.fork(c.fresh(c.fresh_name("send.fails"), BOOL)):
+        raise ConnectionError("send failed [contract of StreamWriter]")
+
+
+@contract("stepup/core/rpc.py::RPCServerConnection._send_loop", props=["C16"])
+class server_send_loop:
+    args = dict(self=_server_conn)
+    env = dict(iter_until_stopped=lambda get, ev: ty.SeqOf(ty.TupleOf(ty.Int, FutureH)).fresh(cur().fresh_name("completed")),
+               contextlib=_ContextlibStub(), _encode_body=_enc_body_may_fail,
+               _send_stream_message=_send_stream_stub_server)
+    may_raise = {TypeError: None}
+    finish = _server_send_finish
+    modifies = []
+    loops = {0: LoopSpec()}
+
+
+# ---------------------------------------------------------------- exposure
+
+
+class ProcStub:
+    def __init__(self, name, has_flag, flag):
+        self.name, self.has_flag, self.flag = name, has_flag, flag
+
+    def __symgetattr__(self, name, default, missing):
+        if name == "_allow_rpc":
+            c = cur()
+            if c.fork(self.has_flag):
+                return sym.wrap_bool(self.flag)
+            if default is missing:
+                raise AttributeError(name)
+            return default
+        raise AttributeError(name)
+
+    def __call__(self, *a, **k):
+        cur().event("procedure.call", proc=self, args=a, kwargs=k)
+        return None
+
+
+class HandlerStub:
+    def __symgetattr__(self, name, default, missing):
+        c = cur()
+        if c.fork(c.fresh(c.fresh_name("handler.has_attr"), BOOL)):
+            return ProcStub(name, c.fresh(c.fresh_name("proc.has_flag"), BOOL), c.fresh(c.fresh_name("proc.flag"), BOOL))
+        if default is missing:
+            raise AttributeError(name)
+        return default
+
+
+class _InspectStub:
+    class _Sig:
+        def bind(self, *a, **k):
+            c = cur()
+            ok = c.fresh(c.fresh_name("bind.ok"), BOOL)
+            c.event("bind", ok=ok)
+            if not c.fork(ok):
+                raise TypeError("arguments do not fit [contract of Signature.bind]")
+
+    def signature(self, f):
+        return _InspectStub._Sig()
+
+    def isawaitable(self, x):
+        return False
+
+
+def _procedure_call_guard(e, trace):
+    """The procedure is called only if it carries the allow_rpc mark and the arguments bind."""
+    binds = [ev for ev in trace if ev.kind == "bind"]
+    return wrap_bool(tm.And(e.proc.has_flag, e.proc.flag, binds[-1].ok if binds else tm.FALSE))
+
+
+@contract("stepup/core/rpc.py::_call_procedure", props=["C16"])
+class call_procedure:
+    args = dict(handler=ty.Make(lambda n: HandlerStub()),
+                call=lambda a: sym.SymObj(rpc.RPCCall, dict(name=ty.Str.fresh("call.name"), args=(), kwargs={}),
+                                          name="RPCCall", frozen=True))
+    env = dict(inspect=_InspectStub())
+    may_raise = {RPCError: None}
+    events = {"procedure.call": _procedure_call_guard}
+    modifies = []
+
+
+# ---------------------------------------------------------------- failure mapping
+
+UsageError = excmod.UsageError
+
+
+class _RaisableStub(Exception):
+    """What to_exception returns, as seen by a caller that only raises it."""
+
+
+class ExcStub:
+    """An arbitrary exception instance; whether its class derives from UsageError is a symbolic fact."""
+
+    def __init__(self, name):
+        c = cur()
+        self.is_usage = c.fresh(name + ".is_usage", BOOL)
+        self.module = ty.Str.fresh(name + ".module")
+        self.qualname = ty.Str.fresh(name + ".qualname")
+        self.__traceback__ = None
+
+    def __syminstance__(self, cls):
+        if cls is UsageError:
+            return sym.wrap_bool(self.is_usage)
+        return False
+
+    def __symtype__(self):
+        return _TypeStub(self)
+
+
+class _TypeStub:
+    def __init__(self, exc):
+        self.__module__ = exc.module
+        self.__qualname__ = exc.qualname
+
+
+class _TracebackStub:
+    def format_exception(self, *a, **k):
+        return ["traceback"]
+
+
+RemoteFailureRec = ty.Rec(rpc.RemoteFailure, dict(module=ty.Str, qualname=ty.Str, message=ty.Str,
+                                                  traceback_text=ty.Str, usage=ty.Bool))
+engine.CLASS_SPECS[rpc.RemoteFailure] = RemoteFailureRec
+
+
+@contract("stepup/core/rpc.py::RemoteFailure.from_exception", props=["C16"])
+class from_exception:
+    """The usage flag says exactly whether the server-side exception is a UsageError."""
+
+    args = dict(cls=lambda a: engine.RepoClass(rpc.RemoteFailure), exc=ty.Make(ExcStub))
+    env = dict(traceback=_TracebackStub())
+    ensures = lambda exc, result: wrap_bool(tm.Iff(B(result.usage), exc.is_usage)) & (result.module == exc.module) \
+        & (result.qualname == exc.qualname)
+    modifies = []
+
+
+class _ClsStub:
+    def __init__(self):
+        c = cur()
+        self.is_type = c.fresh(c.fresh_name("cls.is_type"), BOOL)
+        self.is_usage_subclass = c.fresh(c.fresh_name("cls.is_usage_subclass"), BOOL)
+
+    def __syminstance__(self, cls):
+        if cls is type:
+            return sym.wrap_bool(self.is_type)
+        return False
+
+    def __symsubclass__(self, classinfo):
+        if classinfo is UsageError:
+            return sym.wrap_bool(self.is_usage_subclass)
+        raise sym.Unsupported("issubclass of a class stub against something else than UsageError")
+
+    def __call__(self, message):
+        c = cur()
+        if c.fork(c.fresh(c.fresh_name("cls.ctor_fails"), BOOL)):
+            raise TypeError("constructor needs other arguments [contract]")
+        return _InstStub(self, message)
+
+
+class _InstStub:
+    def __init__(self, cls, message):
+        self.cls, self.message = cls, message
+
+
+class _ModStub:
+    def __symgetattr__(self, name, default, missing):
+        c = cur()
+        if c.fork(c.fresh(c.fresh_name("module.has_attr"), BOOL)):
+            return _ClsStub()
+        raise AttributeError(name)
+
+
+class _ImportlibStub:
+    def import_module(self, name):
+        c = cur()
+        if c.fork(c.fresh(c.fresh_name("import.fails"), BOOL)):
+            raise ImportError("no such module [contract]")
+        return _ModStub()
+
+
+def _to_exception_post(self, result):
+    """The client re-creates only UsageError subclasses; anything else becomes an RPCError."""
+    if isinstance(result, (RPCError, _RaisableStub)):
+        return True
+    if isinstance(result, _InstStub):
+        return sym.wrap_bool(tm.And(result.cls.is_type, result.cls.is_usage_subclass)) & sym.sym_eq(result.message, self.message)
+    return False
+
+
+@contract("stepup/core/rpc.py::RemoteFailure.to_exception", props=["C16"])
+class to_exception:
+    args = dict(self=RemoteFailureRec)
+    env = dict(importlib=_ImportlibStub())
+    ensures = _to_exception_post
+    result = lambda: ty.Make(lambda n: _RaisableStub(n))
+    modifies = []
+
+
+def _rre_finish(c, outcome, args, old):
+    """Raises the re-created usage error iff the failure is flagged usage and debugging is off; otherwise an
+    RPCError that embeds the server traceback."""
+    dbg = c.data.get("is_debug")
+    if outcome[0] != "raise":
+        c.prove("always_raises", False, kind="post")
+        return
+    e = outcome[1]
+    te = [ev for ev in c.trace if ev.kind == "call" and ev.callee == "RemoteFailure.to_exception"]
+    usage = B(args["failure"].usage)
+    want_original = tm.And(usage, tm.Not(dbg)) if dbg is not None else usage
+    if te and e is te[0].result:
+        c.prove("original_only_if_usage_and_not_debug", want_original, kind="post")
+    else:
+        c.prove("rpc_error_otherwise", tm.And(tm.mk_bool(isinstance(e, RPCError)), tm.Not(want_original)), kind="post")
+
+
+def _is_debug_stub():
+    return sym.SymBool(cur().data["is_debug"])
+
+
+@contract("stepup/core/rpc.py::_raise_remote_error", props=["C16"])
+class raise_remote_error:
+    args = dict(failure=RemoteFailureRec, call=ty.Opaque("RPCCall"))
+    env = dict(is_debug=_is_debug_stub)
+    setup = lambda args: cur().data.__setitem__("is_debug", cur().fresh("is_debug", BOOL))
+    may_raise = {BaseException: None}
+    finish = _rre_finish
+    modifies = []
